@@ -33,11 +33,25 @@ CLAIMS = {
         "note": NOTE_COMMON + "FxHashMap and BTreeMap share one association-list model (same code up to the container). retain_keys' key-set argument is modelled as the list in which the real set iterates (duplicates excluded by hypothesis order.count start <= 1).",
         "technique": TECH,
     },
+    "C10": {
+        "category": "proof",
+        "design_ref": "DESIGN.md §5 C10",
+        "text": "Full for every constructor in the model: c10_withChildren_reach/_labels (depth-one trees, shared children for equal constraints), c10_transitive_mutex / c10_pairwise_mutex (valid indices, first constraint present, faithful for ANY mutex relation and every truth assignment), c10_sort_perm / c10_sort_head_min / c10_sort_sorted (stable sort_with_indices: the head is the first minimum), c10_charTree + c10_charTree_total (string/matrix decomposition), c10_tTree_depth1, and for with_powerset: c10_powerset_terminates (2^(n+1) iterations), _valid, _smallest, _all_labels and c10_powerset_faithful (full iff, for every assignment satisfying the conditioning law), with the law itself proved for the table domain's conditioned() (c10_tCond_law) and the end-to-end c10_tTree_powerset. 22 theorems. The PGPredicate instance (pgTree, pg_condLaw) is stated once the port-graph model is in (partial until then: its trees are exercised by the correspondence only). Correspondence: node-for-node agreement of the real trees with the model on 20k (quick) records incl. all lists of <=3 not-in constraints over 4 other keys, and the reachLabel oracle on the implementation's tree for every truth assignment / 729 bindings.",
+        "note": NOTE_COMMON + "Trees are read back through the public accessors (children, constraint_indices, n_nodes, make_det).",
+        "technique": TECH,
+    },
+    "C15": {
+        "category": "proof",
+        "design_ref": "DESIGN.md §5 C15",
+        "text": "Full for the model (33 theorems): c15_once (any history, any graphs, any scan orders: each node emitted at most once), c15_after_preds(_at) (a node is emitted only when live and all its current predecessors were emitted earlier), c15_exhaustive / c15_exhaustive_hist (under the admissibility clauses — acyclic, root the only unvisited source, no edge from unvisited into visited — exhaustion implies every live node was emitted), c15_terminates_bound (stack length + 1 passes under graph well-formedness), c15_fuel_mono, soundness of the Bool admissibility checker the driver uses (c15_isAcyclic_sound, c15_admState_sound), and WF/FreeOK of the StableGraph model as an inductive invariant of add_node/add_edge/remove_edge/remove_node (c15_wf_*, c15_freeOK_*). Correspondence: the real OnlineToposort on StableDiGraph, emitted node and ready stack compared after every call with the real hash scan order fed to the model; indices returned by add_node/add_edge compared with the graph model (16.5k histories quick, 9.2k admissible).",
+        "note": NOTE_COMMON + "Clause (iv) 'identifiers never reused' is a hypothesis of the property that the builder itself can break (DESIGN S2); the driver flags index reuse and then only checks clauses 1-2. petgraph::StableGraph is modelled, not verified.",
+        "technique": TECH,
+    },
 }
 
 NOT_APPLICABLE = [
     {"property_id": p, "reason": "not yet claimed in this round: model / theorems / correspondence stage under construction (see DESIGN.md §7 build order); no technique switch intended"}
-    for p in ["C01", "C02", "C03", "C04", "C05", "C06", "C07", "C08", "C09", "C10", "C11", "C15", "C17"]
+    for p in ["C01", "C02", "C03", "C04", "C05", "C06", "C07", "C08", "C09", "C11", "C17"]
 ]
 
 NOTES = "See DESIGN.md. Every check re-checks its Lean theorems (lake build + #print axioms audit), rebuilds the harness against /repo's working tree, runs the correspondence for the stages in the property's cone and evaluates the property's executable oracle on the implementation's outputs."
